@@ -136,7 +136,8 @@ pub fn run(ctx: &mut Ctx) {
         // (2048..10000: thresholds, polling intervals and counters tied to the budget's magnitude)
         let big_limit = if ctx.quick() { k % 40 == 39 && (ctx.profile == "release" || k % 320 == 39) } else { k % 400 == 39 && (ctx.profile == "release" || k % 3200 == 39) };
         let limit: i32 = if big_limit {
-            *r.pick(&[2047, 2048, 2049, 3000, 4097, 5000, 10000])
+            // (budgets around 2^11, 2^12, 2^16 and 2^17: counters narrower than the budget's type wrap there)
+            *r.pick(&[2047, 2048, 2049, 3000, 4097, 5000, 10000, 65535, 65536, 65537, 70000, 131073])
         } else if k % 25 == 24 {
             1000
         } else {
@@ -145,7 +146,8 @@ pub fn run(ctx: &mut Ctx) {
         // growth caps: small, the default, and the extremes of the type (a cap nobody can exceed)
         let cap: usize = if big_limit { 100_000 } else if k % 25 == 24 { 500 } else if k % 50 == 7 { *r.pick(&[usize::MAX, usize::MAX - 1, usize::MAX / 2 + 1]) } else { *r.pick(&[0, 1, 2, 3, 5, 8, 20, 500]) };
         // ---- program families --------------------------------------------------------------
-        let family = if big_limit { k / 40 % 2 } else { k % 8 };
+        // (budgets beyond 10000: the diverging family only - its state stays small, so the shadow stays linear)
+        let family = if big_limit && limit > 10000 { 1 } else if big_limit { k / 40 % 2 } else { k % 8 };
         let mut s = if family >= 5 { gen::snap(&mut r, &StateOpts { vals: Vals::Small, max_depth: 3, graphs: false, io: true, bindings: true, flags: false, random_cfg: false }, &alphabet) } else { Snap::empty() };
         s.e.clear();
         s.q = false;
@@ -379,18 +381,22 @@ pub fn run(ctx: &mut Ctx) {
     ctx.rec.checkpoint();
 
     // ---- time limit: tiny limit + an instruction that sleeps (time must be the cause) ---------
-    let ntime = ctx.n(6, 24);
-    for k in 0..ntime as u64 {
+    // (cases beyond the small ones use limits of about one second: 999, 1000, 1001, 1100 ms - a limit
+    // compared in the wrong unit or on the sub-second part only passes every test with a 20 ms limit)
+    let nsmall = ctx.n(6, 24) as u64;
+    let ntime = if ctx.is_fuzz() { 0 } else { nsmall + 4 };
+    for k in 0..ntime {
         if !ctx.mine(k) {
             continue;
         }
         let mut s = Snap::empty();
-        let nsleeps = 2 + (k % 3) as usize;
+        let limit_ms: u64 = if k < nsmall { 20 } else { [999u64, 1000, 1001, 1100][(k - nsmall) as usize] };
+        let nsleeps = if k < nsmall { 2 + (k % 3) as usize } else { 6 };
         let mut v: Vec<SItem> = (0..k % 3).map(|j| SItem::Int(j as i32)).collect();
         v.extend((0..nsleeps).map(|_| i("VERIF.SLEEP")));
         v.push(SItem::Int(99));
         s.e = vec![SItem::List(v)];
-        s.cfg.eval_time_limit = 20;
+        s.cfg.eval_time_limit = limit_ms;
         s.cfg.eval_push_limit = 100000;
         s.cfg.growth_cap = 100000;
         ctx.rec.case_marker(1_000_000 + k, "time limit");
@@ -408,10 +414,11 @@ pub fn run(ctx: &mut Ctx) {
                 ctx.rec.set_add("outcomes", outcome_name(&o));
                 let steps_done = EVENTS.with(|e| e.borrow().iter().filter(|e| matches!(e.ev, RunEvent::Step { .. })).count());
                 if o != PushInterpreterState::TimeLimitExceeded {
-                    ctx.rec.violation("C02", "run|time-limit-missed", &format!("limit 20 ms, program sleeps {} x 300 ms, outcome {} after {} steps and {} ms", nsleeps, outcome_name(&o), steps_done, wall), "");
+                    ctx.rec.violation("C02", "run|time-limit-missed", &format!("limit {} ms, program sleeps {} x 300 ms, outcome {} after {} steps and {} ms", limit_ms, nsleeps, outcome_name(&o), steps_done, wall), "");
                 } else {
                     // stopped at the first check after the first sleep; state = shadow after the same steps
-                    let first_sleep_step = 1 + (k % 3) as usize + 1;
+                    // (for a limit of L ms: the sleep number L/300 + 1 is the first one after which L ms have surely passed)
+                    let first_sleep_step = 1 + (k % 3) as usize + 1 + (limit_ms / 300) as usize;
                     // earlier is legitimate on a loaded machine (the 20 ms may pass before the
                     // sleep); later is not: after the sleep at least 300 ms have passed
                     if steps_done > first_sleep_step {
